@@ -636,6 +636,9 @@ class PersistenceImager(TransformerMixin):
         for pers_dgm in pers_dgms:
             # (as float64: the extent of int8 / int16 data does not fit its dtype)
             pers_dgm = np.array(pers_dgm, dtype=np.float64)
+            if pers_dgm.size == 0:
+                # an empty diagram has no pair to enclose
+                continue
             if skew:
                 pers_dgm[:, 1] = pers_dgm[:, 1] - pers_dgm[:, 0]
 
